@@ -31,18 +31,25 @@ AP_PAD = {"k": 2, "maxtok": 1, "tokmask": 1, "shapemask": 2073, "nvals": 4, "kma
 AP_K1_T3 = {"k": 1, "maxtok": 3, "tokmask": 15, "shapemask": ALLSHAPES, "nvals": 8, "kmask0": 63}
 AP_K2_DEEP = {"k": 2, "maxtok": 2, "tokmask": 1, "shapemask": 315, "nvals": 2, "kmask0": 63, "kmask1": 63}
 AP_K2_INNER_ALL = {"k": 2, "maxtok": 2, "mintok0": 2, "tokmask": 1, "shapemask": 2328, "nvals": 4, "kmask0": 63, "kmask1": 63}
+# tokens that look like numbers to a lenient parser (0x1, 0b1, 0o1, 1e0, 1_0, " 1") on array-bearing documents: none names an array location
+AP_LOOK = {"k": 1, "maxtok": 2, "mintok0": 1, "tokmask": 160, "shapemask": 48, "nvals": 2, "kmask0": 63}
+# number literals in operation values (dEdd, 1e400, -0 nested in an array/object value) and in the literal-template documents
+AP_LIT = {"k": 1, "maxtok": 2, "tokmask": 1, "shapemask": 196609, "nvals": 9, "valmask": 257, "kmask0": 63}
+TESTOP_BOUND = ("the test operation as a relation: target X and operand Y each one of the 23 Equal value shapes (one-letter symbolic member names a..d, symbolic leaves; {k:null} against {j:n}, same member count under different names, nested containers), "
+                "X at the root (path \"\"), under a member or at an array element; then=1: followed by an add that must take effect only when the test passed; a scalar or null root is outside C01's domain and only checked for panics")
 AP_K3 = {"k": 3, "maxtok": 1, "tokmask": 1, "shapemask": 34, "nvals": 2, "kmask0": 7, "kmask1": 63, "kmask2": 48}
 AP_BOUND = ("21 document shapes selected by shapemask (<= 7 nodes, depth <= 3, object and array roots, null members and null elements, names containing ~ and /, containers under such names, names spelled through JSON escapes, HTML-relevant strings, number-literal templates), "
             "K operations (kmask selects the kinds per position), pointers of mintok..maxtok tokens; each token 1-3 symbolic bytes "
-            "(any printable ASCII except quote, backslash, slash, tilde) or the fixed spellings a~0b / c~1d; 8 value shapes with symbolic leaves; SupportNegativeIndices symbolic")
+            "(any printable ASCII except quote, backslash, slash, tilde), the fixed spellings a~0b / c~1d, or a number look-alike (0x1, 0b1, 0o1, 1e0, 1_0, \" 1\"); 9 value shapes with symbolic leaves; SupportNegativeIndices symbolic")
 def apply_harnesses(extra_quick=(), extra_thorough=()):
-    q = [AP_K1, AP_K2_FLAT, AP_K2_INNER, AP_K2_COPYEDIT, AP_ESC, AP_ESCPARENT, AP_PAD] + list(extra_quick)
-    t = [AP_K1_T3, AP_K2_DEEP, AP_K2_INNER_ALL, AP_K3, AP_K2_COPYEDIT, AP_ESC, AP_ESCPARENT, AP_PAD] + list(extra_thorough)
+    q = [AP_K1, AP_K2_FLAT, AP_K2_INNER, AP_K2_COPYEDIT, AP_ESC, AP_ESCPARENT, AP_PAD, AP_LOOK, AP_LIT] + list(extra_quick)
+    t = [AP_K1_T3, AP_K2_DEEP, AP_K2_INNER_ALL, AP_K3, AP_K2_COPYEDIT, AP_ESC, AP_ESCPARENT, AP_PAD, AP_LOOK, AP_LIT] + list(extra_thorough)
     return [
         H("H_Apply", q, t, ["apply/end", "apply/ref-fails", "apply/ref-succeeds"], AP_BOUND),
         H("H_Apply_Idx", [{"tokbytes": 2, "nshapes": 6}], [{"tokbytes": 2, "nshapes": 6}, {"tokbytes": 3, "nshapes": 6}],
           ["apply/end", "apply/ref-fails"],
           "6 array-bearing shapes, one operation of any kind whose last token is tokbytes unconstrained symbolic token bytes (two-/three-digit indices, -1, -10, +1, 01 ...)"),
+        H("H_TestOp", [{}], [{}, {"then": 1}], ["apply/ref-succeeds", "apply/ref-fails", "testop/scalar-root"], TESTOP_BOUND),
     ]
 AP_ANCHORS = ["v5.findObject", "(*github.com/evanphx/json-patch/v5.partialArray).add", "(*github.com/evanphx/json-patch/v5.partialArray).remove",
               "(*github.com/evanphx/json-patch/v5.partialArray).set", "(*github.com/evanphx/json-patch/v5.partialArray).get",
@@ -88,7 +95,7 @@ R["C03"] = {"harnesses": [
       ["create/end", "create/no-null-target"], CREATE_BOUND),
     H("H_CreateArr", [{"vals": 31}], None, ["createarr/end", "createarr/rejected"], "arrays of 0..2 objects of <= 1 member each (first five value shapes)"),
     H("H_CreateReject", [{}], None, ["createreject/accepted", "createreject/rejected"], "all 49 pairs of 7 root kinds"),
-    H("H_CreateBig", [{}], None, ["createbig/end"], "concrete numbers that float64 cannot hold exactly (2^53+1, 19 fractional digits, 23 digits, 1E5, 1e400) on a fresh pooled decoder state: carried into the patch verbatim")],
+    H("H_CreateBig", [{}], None, ["createbig/end"], "numbers that float64 cannot hold exactly (2^53+1, 19 fractional digits, 23 digits, 1E5, 1e400) on a fresh pooled decoder state: carried into the patch verbatim; two members whose values in A and B are neighbouring 16-digit integers / 17-digit decimals with a symbolic last digit (different numbers that one float64 may not tell apart): in the patch exactly when the digits differ")],
     "anchors": ["v5.CreateMergePatch", "v5.createObjectMergePatch", "v5.createArrayMergePatch", "v5.getDiff", "v5.matchesValue", "v5.matchesArray"],
     "assumptions": ["member names distinct within an object", "null roots and null array elements outside (property)"],
     "outside_bound": ["objects with more than m members or deeper than the listed shapes", "numbers other than one symbolic digit (see C05 for literals)"]}
@@ -107,6 +114,9 @@ R["C04"] = {"harnesses": [
       "k unconstrained bytes (hi=1: k unconstrained NON-ASCII bytes, i.e. every well-formed and malformed UTF-8 sequence) inside a string literal (member value, member name, pointer, operation value) of otherwise well-formed arguments, through DecodePatch+accessors+Apply, Equal, MergePatch, MergeMergePatches, CreateMergePatch"),
     H("H_Bytes_InString", [{"k": 3}], [{"k": 3}, {"k": 4, "hi": 1}], ["bytes/instring/end"], "legacy root package: the same family", target="legacy"),
     H("H_Apply", [AP_K1_SMALL, dict(AP_K2_FLAT, shapemask=98)], [AP_K1, AP_K2_DEEP], ["apply/end"], "the C01 family (well-formed but awkward: null members/elements, root-replacing operations followed by another operation)"),
+    H("H_Apply", [AP_LIT], None, ["apply/end"], "number literals (dEdd, 1e400, -0) inside operation values and documents"),
+    H("H_TestOp", [{}], [{}, {"then": 1}], ["testop/scalar-root"], TESTOP_BOUND),
+    H("H_Legacy_TestOp", [{}], None, ["legacy/end"], "legacy root package: the test operation over pairs of the 23 Equal value shapes", target="legacy"),
     H("H_Equal", EQ_Q, None, ["equal/true"], "the C06 family"),
     H("H_Merge", [{"docm": 1, "docvals": 6, "patchm": 2, "patchvals": 10}], None, ["merge/end"], "the C02 family"),
     H("H_MergeMerge", [{"docm": 1, "docvals": 2, "patchm": 1, "patchvals": 10, "nonobjdocs": 1}], None, ["mm/end"], "the C07 family"),
@@ -142,7 +152,8 @@ R["C16"] = {"harnesses": [
     H("H_Bytes_ApplyDoc", ns(0, 3), ns(0, 5), ["bytes/applydoc/malformed", "bytes/applydoc/wellformed"], "Apply on every document of n bytes"),
     H("H_Bytes_Merge", ns(0, 3), ns(0, 5), ["bytes/merge/malformed", "bytes/merge/wellformed"], "merge functions with one argument = every byte string of n bytes"),
     H("H_Bytes_Decode", ns(0, 4), ns(0, 6), ["bytes/decode/malformed", "bytes/decode/wellformed"], "DecodePatch on every byte string of n bytes"),
-    H("H_Bytes_Equal", ns(0, 3, m=-1), ns(0, 5, m=-1), ["bytes/equal/malformed"], "Equal false on every malformed string of n bytes")],
+    H("H_Bytes_Equal", ns(0, 3, m=-1), ns(0, 5, m=-1), ["bytes/equal/malformed"], "Equal false on every malformed string of n bytes"),
+    H("H_CreateBig", [{}], None, ["createbig/end"], "CreateMergePatch accepts well-formed objects whose numbers lie outside float64 (1e400, 23 digits) as the FIRST decode on a fresh pooled decoder state")],
     "anchors": ["internal/json.Valid", "internal/json.checkValid", "internal/json.stateBeginValue", "internal/json.stateEndValue", "(*github.com/evanphx/json-patch/v5/internal/json.scanner).pushParseState", "internal/json.Compact", "internal/json.Indent", "internal/json.Unmarshal"],
     "assumptions": ["Apply on the EMPTY document returns an empty result and no error; this is pinned by the repository's own Cases[0] and listed as open known finding KF-empty-doc"],
     "outside_bound": ["fully symbolic strings longer than the listed n; longer strings only through the template family", "nesting between the explored stack depths is covered by the one-step argument only (not by whole texts 10000 levels deep)"]}
@@ -208,7 +219,7 @@ R["C08"] = {"harnesses": apply_harnesses(extra_quick=[C12_K1, C08_K1_OPTS, C08_D
 R["C11"] = {"harnesses": [
     H("H_DecodePatch", [{"elements": 1, "pad": 1}], [{"elements": 1, "pad": 1}, {"elements": 2, "pad": 0, "fixed": 0}, {"elements": 2, "pad": 0, "fixed": 1}], ["decode/accepted", "decode/rejected", "decode/end"],
       "patch texts assembled member by member: root kind (array of operations / array with a non-object element / non-array root / empty array), and for each of op, path, from, value: absent, null, string, number, object, array or present under a case-renamed key; optional extra member, optional duplicated path; the op string is one of the six names or 3/4/6 symbolic letters (any case); one symbolic whitespace byte before and after; accessors compared with the generating members"),
-    H("H_DecodePatch_Template", [{"k": 1}], [{"k": 1}, {"k": 2}], ["decode/template/malformed", "decode/template/whitespace", "decode/template/end"], "3 valid patch documents (37-66 bytes) with k unconstrained bytes inserted at every position: rejected when no longer well-formed JSON, accepted when the insertion is insignificant whitespace"),
+    H("H_DecodePatch_Template", [{"k": 1}], [{"k": 1}, {"k": 2}], ["decode/template/malformed", "decode/template/whitespace", "decode/template/end"], "4 valid patch documents (37-66 bytes; one with escape sequences in a member name, in path and in a value, so that an inserted byte can land after a backslash or inside \\uXXXX) with k unconstrained bytes inserted at every position: rejected when no longer well-formed JSON, accepted when the insertion is insignificant whitespace"),
     H("H_Bytes_Decode", ns(0, 4), ns(0, 6), ["bytes/decode/malformed", "bytes/decode/wellformed"], "every byte string of n bytes: malformed, non-array roots and non-object elements rejected; the empty array accepted with any whitespace")],
     "anchors": ["v5.DecodePatch", "v5.validateOperation", "v5.validatePatch", "(github.com/evanphx/json-patch/v5.Operation).Kind", "(github.com/evanphx/json-patch/v5.Operation).Path", "(github.com/evanphx/json-patch/v5.Operation).From", "(github.com/evanphx/json-patch/v5.Operation).ValueInterface"],
     "assumptions": ["the JSON text null (decodes to an empty patch) is outside the stated domain", "duplicated members are asserted only when both copies fall in the same accept/reject class (here: path duplicated with the same string)"],
@@ -235,7 +246,8 @@ R["C15"] = {"harnesses": [
     "outside_bound": ["strings of more than 2 atoms", "invalid UTF-8 input (the property is stated for UTF-8 input)"]}
 
 R["C18"] = {"harnesses": [H("H_Legacy_Apply", [L_K1_Q, L_K2_FLAT, L_K2_INNER, L_K2_COPYEDIT, L_LIMIT1, L_IDX, L_ESC], [L_K1, L_K2_FLAT, L_K2_INNER, L_K2_COPYEDIT, L_LIMIT1, L_LIMIT, L_IDX, L_ESC, dict(L_K2_FLAT, shapemask=315, maxtok=2)],
-    ["legacy/end", "legacy/ref-fails"], AP_BOUND.replace("SupportNegativeIndices symbolic", "package variable SupportNegativeIndices on/off; optionally package variable AccumulatedCopySizeLimit = any int64") + "; pointers have at least one token (v4 offers no root-replacing add and no copy from the root)", target="legacy")],
+    ["legacy/end", "legacy/ref-fails"], AP_BOUND.replace("SupportNegativeIndices symbolic", "package variable SupportNegativeIndices on/off; optionally package variable AccumulatedCopySizeLimit = any int64") + "; pointers have at least one token (v4 offers no root-replacing add and no copy from the root)", target="legacy"),
+    H("H_Legacy_TestOp", [{}], [{}, {"then": 1}], ["legacy/end", "legacy/ref-fails"], "the test operation as a relation: target and operand each one of the 23 Equal value shapes (symbolic one-letter names, symbolic leaves), target under a member or at an array element; then=1: followed by an add", target="legacy")],
     "anchors": ["json-patch.findObject", "(github.com/evanphx/json-patch.Patch).copy", "(github.com/evanphx/json-patch.Patch).move", "(github.com/evanphx/json-patch.Patch).test", "(github.com/evanphx/json-patch.Patch).add", "(github.com/evanphx/json-patch.Patch).remove", "(github.com/evanphx/json-patch.Patch).replace", "json-patch.deepCopy", "(*github.com/evanphx/json-patch.lazyNode).equal"],
     "assumptions": ["the root package is staged (non-test *.go files copied at check time) into a scratch module named github.com/evanphx/json-patch; the standard library's encoding/json (this toolchain's source) is executed under the same reflect model",
                     "errors are demanded only for the three classes the property names (failed test, remove/move of an absent location, index out of range)", "test operands are strings without escapes and without <, >, &"],
@@ -250,23 +262,23 @@ R["C19"] = {"harnesses": [
     "outside_bound": ["families as for C02/C03/C06/C07 at their quick bounds"]}
 
 R["C20"] = {"harnesses": [H("H_C20_Main", [{"maxfiles": 2}], [{"maxfiles": 3}], ["C20/all-good", "C20/some-bad", "C20/end"],
-    "the real main() of v5/cmd/json-patch with 0..maxfiles -p files, each one of: patch that applies (3 variants with symbolic leaves), patch that fails to apply (2), malformed (3), missing file, directory - in every order; stdin a document with two symbolic string bytes (any printable ASCII, so % is included); expected output = left fold of the library's own DecodePatch+Apply",
+    "the real main() of v5/cmd/json-patch with 0..maxfiles -p files, each one of: patch that applies (3 variants with symbolic leaves), patch that fails to apply (2), malformed (3), missing file, directory - in every order; stdin one of 6 forms of a document with two symbolic string bytes (any printable ASCII, so % is included): compact, surrounded by whitespace, whitespace inside, followed by a second document, followed by garbage, truncated (the last three only with at least one patch file); expected output = left fold of the library's own DecodePatch+Apply",
     target="cmd")],
     "anchors": ["cmd/json-patch.main", "(*github.com/evanphx/json-patch/v5/cmd/json-patch.FileFlag).UnmarshalFlag"],
-    "assumptions": ["environment stubs (harness/incmd): go-flags' own argument parsing is replaced by a stub that calls the real FileFlag.UnmarshalFlag for each -p value in order; os.Stat, filepath.Abs, ReadFile, ReadAll(os.Stdin) answer from the scenario; log.Fatalf records stderr, sets exit status 1 and ends the run; fmt.Printf implements %s and %% and renders a verb without operand as Go does",
+    "assumptions": ["environment stubs (harness/incmd): go-flags' own argument parsing is replaced by a stub that calls the real FileFlag.UnmarshalFlag for each -p value in order; os.Stat, filepath.Abs, ReadFile, os.Open answer from the scenario; os.Stdin/Stdout/Stderr are three handles whose Read/Write/WriteString/ReadFrom/WriteTo are served from the scenario whoever calls them (so the real io.ReadAll, bufio, json.Decoder or io.Copy run on top of them); log.Fatal*/os.Exit record the exit status and end the run, log.Print* write to stderr; fmt.Print/Println/Printf/Fprint* implement %s, %v, %d and %% for strings, byte slices, ints and errors and render a verb without operand as Go does (anything else renders as '?' and ends unconfirmed)",
                     "every reported violation and a sample of passing paths are re-run with the REAL binary (go build ./cmd/json-patch from the working tree) on real files"],
     "outside_bound": ["more than 3 files", "go-flags' argument parsing, the operating system, process exit plumbing", "the root cmd/json-patch (identical source apart from the import path)"]}
 
 R["C09"] = {"harnesses": [
     H("H_History", [{"len": 1}], [{"len": 1}, {"len": 2}], ["history/B-succeeds", "history/end"],
-      "r1 := B(x); len arbitrary calls; r2 := B(x) with B one of Apply, ApplyIndent, CreateMergePatch, Equal, MergePatch, MergeMergePatches and each intervening call one of 13 kinds (the six again with other leaves, a failing Apply, malformed document / patch / merge patch / Equal operand / CreateMergePatch operand, ApplyWithOptions with EscapeHTML off); leaves symbolic; sync.Pool modelled as a LIFO stack so every pooled decoder/encoder/scanner state left behind by one call is handed to the next"),
+      "r1 := B(x); len arbitrary calls; r2 := B(x) with B one of Apply, ApplyIndent, CreateMergePatch, Equal, MergePatch, MergeMergePatches and each intervening call one of 13 kinds (the six again with other leaves, a failing Apply, malformed document / patch / merge patch / Equal operand / CreateMergePatch operand, ApplyWithOptions with EscapeHTML off); leaves symbolic; sync.Pool modelled as the runtime behaves on one goroutine (private slot, then shared list newest first) so every pooled decoder/encoder/scanner state left behind by one call is handed to the next"),
     H("H_C09_StaleDecoder", [{}], None, ["C09/stale/end", "C09/stale/object"],
       "one inductive step: a decodeState in an arbitrary stale condition (symbolic offset, opcode, scanner byte count and top-of-stack entry; stale saved error, error context, key list, scanner step function, scanner error) goes through set-useNumber / [checkValid] / init / unmarshal of 6 texts into any, map and slice destinations and must give the outcome of a brand-new state"),
     H("H_Options_Reuse", [{}], None, ["reuse/end"], "one ApplyOptions value reused across calls that fail or succeed: the options are not written and the next call is unaffected"),
     dict(H("H_Repeat_Stable", [{}], None, ["repeat/end"], "the same Apply / CreateMergePatch twice on 3 documents (two of them spelling a member name twice) x 4 patches, with ALTERNATING map iteration order in the interpreter: the bytes must not depend on Go's map order"), map_alternate=True),
-    H("H_SharedPatch", [{}], None, ["shared/end"], "one decoded Patch applied to D1, D2, D1 vs a freshly decoded Patch each time; the Patch's raw messages and a result fed back as the next document are compared byte for byte before/after")],
+    H("H_SharedPatch", [{}], None, ["shared/end"], "one decoded Patch (10 operations, among them add of an array / object value followed by add, remove and replace INSIDE that value) applied to D1, D2, D1 vs a freshly decoded Patch each time; the Patch's raw messages and a result fed back as the next document are compared byte for byte before/after")],
     "anchors": ["internal/json.UnmarshalValid", "internal/json.MarshalEscaped", "(*github.com/evanphx/json-patch/v5/internal/json.decodeState).init", "internal/json.newScanner", "internal/json.freeScanner", "(github.com/evanphx/json-patch/v5.Operation).value", "v5.newRawMessage"],
-    "assumptions": ["sync.Pool = per-pool LIFO stack (the behaviour of the runtime on one goroutine with GC off; the native replay runs with GC disabled)", "concurrency is C10 (not applicable)"],
+    "assumptions": ["sync.Pool = per-pool private slot + shared list taken newest first (the behaviour of the runtime on one goroutine with GC off; the native replay runs with GC disabled); other hand-out orders the API allows are not explored", "concurrency is C10 (not applicable)"],
     "outside_bound": ["histories with more than 2 intervening calls (1 in quick)", "the inductive step covers the decoder state only (encodeState and scanner pool are covered by the histories)"]}
 
 R["C17"] = {"harnesses": [
@@ -276,7 +288,7 @@ R["C17"] = {"harnesses": [
       "fork vs the standard library's encoding/json, BOTH executed from source: Marshal bytes and Unmarshal results for map[string]any, []any, []string, map[string]string, string and a harness-declared struct type with a renamed field, '-', omitempty, ',string', a nested pointer struct, a map field and an embedded struct; string leaves from the escape alphabet, bool symbolic, ints from {0,7,42}; []byte values of 0, 1, 47, 48, 49, 63, 64, 65, 100 bytes (base64 path, scratch-buffer boundary) bare and inside a map"),
     H("H_CreateBig", [{}], None, ["createbig/end"], "numbers outside float64 keep their literal through UnmarshalValid on a fresh pooled state (seen through CreateMergePatch)"),
     H("H_Codec_Stream", [{"atommask": 524287}], None, ["codec/stream-end"],
-      "Decoder (UseNumber) over a stream of two values separated by a symbolic whitespace byte, More(), and Encoder with SetEscapeHTML on/off: same decoded values as the standard library's Decoder, one value per line on output, values read back unchanged"),
+      "Decoder (UseNumber) over a stream of two values separated by a symbolic whitespace byte, More(), and Encoder with SetEscapeHTML on/off and 5 SetIndent settings (none, indent only, prefix only, both): same decoded values as the standard library's Decoder, the Encoder's bytes equal to the standard library Encoder's under the same settings, one value per line without indentation, values read back unchanged"),
     H("H_C17_Fold", [{"ns": 2, "nt": 2}, {"ns": 1, "nt": 3}, {"ns": 2, "nt": 4}], [{"ns": 2, "nt": 2}, {"ns": 1, "nt": 3}, {"ns": 2, "nt": 4}, {"ns": 3, "nt": 3}, {"ns": 3, "nt": 5}], ["C17/fold/end"],
       "equalFoldRight, asciiEqualFold, simpleLetterEqualFold vs a reference simple-fold comparison, under their documented preconditions: s = ns unconstrained ASCII bytes, t = nt unconstrained bytes (covers K/U+212A and S/U+017F)")],
     "anchors": ["internal/json.UnmarshalValid", "internal/json.UnmarshalWithKeys", "internal/json.UnmarshalValidWithKeys", "internal/json.Marshal", "internal/json.MarshalEscaped", "internal/json.Compact", "internal/json.compact", "internal/json.Indent", "internal/json.HTMLEscape", "internal/json.equalFoldRight", "internal/json.asciiEqualFold", "internal/json.simpleLetterEqualFold"],
